@@ -85,7 +85,7 @@ func (dm *Defmethod) adjoin(b []byte) []byte {
 	b = append(b, dm.name...)
 	for _, n := range dm.children {
 		if n.newline() {
-			b = append(b, indent[:n.left()+1]...)
+			b = newlineIndent(b, n.left())
 		} else {
 			b = append(b, ' ')
 		}
